@@ -19,7 +19,6 @@ import (
 	"sort"
 
 	beacon "github.com/oasisprotocol/oasis-core/go/beacon/api"
-	"github.com/oasisprotocol/oasis-core/go/common/cbor"
 	"github.com/oasisprotocol/oasis-core/go/common/crypto/signature"
 	"github.com/oasisprotocol/oasis-core/go/common/node"
 	"github.com/oasisprotocol/oasis-core/go/consensus/api/transaction"
@@ -554,5 +553,3 @@ func (d *vrfDriver) sortedMoods() []string {
 	sort.Strings(ks)
 	return ks
 }
-
-var _ = cbor.Marshal
